@@ -1,0 +1,120 @@
+//! Verification hooks. Compiled only with `--cfg tikv_raft_rs_verif`; add-only, no behaviour
+//! change: re-exports of crate-private items and thin constructors so that an external
+//! harness can drive the real component code directly.
+
+/// Quorum arithmetic (`src/quorum.rs`, `src/quorum/{majority,joint}.rs`, `src/tracker.rs`).
+pub mod quorum {
+    use crate::quorum::{AckIndexer, Index};
+    use crate::tracker::Configuration;
+    use crate::confchange::MapChangeType;
+    use crate::{HashSet, JointConfig, MajorityConfig, ProgressTracker};
+
+    /// A joint configuration with the given two halves (the crate's own constructor
+    /// `new_joint_from_majorities` is `#[cfg(test)]`).
+    pub fn joint_from_majorities(incoming: MajorityConfig, outgoing: MajorityConfig) -> JointConfig {
+        JointConfig { incoming, outgoing }
+    }
+
+    fn indexer(acks: &[(u64, u64, u64)]) -> AckIndexer {
+        let mut l = AckIndexer::default();
+        for &(id, index, group_id) in acks {
+            l.insert(id, Index { index, group_id });
+        }
+        l
+    }
+
+    /// `MajorityConfig::committed_index` over an `AckIndexer` holding one
+    /// `Index { index, group_id }` per `(id, index, group_id)` triple (the trait and
+    /// `Index` live in a private module).
+    pub fn majority_committed_index(
+        cfg: &MajorityConfig,
+        acks: &[(u64, u64, u64)],
+        use_group_commit: bool,
+    ) -> (u64, bool) {
+        cfg.committed_index(use_group_commit, &indexer(acks))
+    }
+
+    /// `JointConfig::committed_index`, same convention.
+    pub fn joint_committed_index(
+        cfg: &JointConfig,
+        acks: &[(u64, u64, u64)],
+        use_group_commit: bool,
+    ) -> (u64, bool) {
+        cfg.committed_index(use_group_commit, &indexer(acks))
+    }
+
+    /// A `ProgressTracker` whose voter configuration is `incoming && outgoing`, holding one
+    /// `Progress` per `(id, matched, commit_group_id)` triple and the given recorded votes.
+    /// Built through the tracker's public methods only.
+    pub fn tracker_with(
+        incoming: &[u64],
+        outgoing: &[u64],
+        progress: &[(u64, u64, u64)],
+        votes: &[(u64, bool)],
+        group_commit: bool,
+    ) -> ProgressTracker {
+        let mut t = ProgressTracker::new(256);
+        let conf = Configuration {
+            voters: JointConfig {
+                incoming: MajorityConfig::new(incoming.iter().cloned().collect()),
+                outgoing: MajorityConfig::new(outgoing.iter().cloned().collect()),
+            },
+            learners: HashSet::default(),
+            learners_next: HashSet::default(),
+            auto_leave: false,
+        };
+        let changes = progress
+            .iter()
+            .map(|(id, _, _)| (*id, MapChangeType::Add))
+            .collect();
+        t.apply_conf(conf, changes, 1);
+        for (id, matched, group) in progress {
+            let pr = t.get_mut(*id).unwrap();
+            pr.matched = *matched;
+            pr.commit_group_id = *group;
+        }
+        for (id, v) in votes {
+            t.record_vote(*id, *v);
+        }
+        t.enable_group_commit(group_commit);
+        t
+    }
+}
+
+
+/// Re-exports of crate-private items so that component harnesses can call them directly.
+pub mod verif_export {
+    pub use crate::confchange::restore;
+
+    use crate::confchange::MapChangeType;
+    use crate::tracker::Configuration;
+    use crate::{JointConfig, MajorityConfig, ProgressTracker};
+
+    /// Builds a tracker holding an arbitrary (possibly inconsistent) configuration and a `Progress`
+    /// for exactly the ids in `progress` — used to drive `check_invariants` from states the public
+    /// API cannot construct.
+    pub fn make_tracker(
+        incoming: &[u64],
+        outgoing: &[u64],
+        learners: &[u64],
+        learners_next: &[u64],
+        auto_leave: bool,
+        progress: &[u64],
+    ) -> ProgressTracker {
+        let mut voters = JointConfig::new(incoming.iter().cloned().collect());
+        voters.outgoing = MajorityConfig::new(outgoing.iter().cloned().collect());
+        let conf = Configuration {
+            voters,
+            learners: learners.iter().cloned().collect(),
+            learners_next: learners_next.iter().cloned().collect(),
+            auto_leave,
+        };
+        let mut tr = ProgressTracker::new(10);
+        let changes = progress
+            .iter()
+            .map(|id| (*id, MapChangeType::Add))
+            .collect();
+        tr.apply_conf(conf, changes, 1);
+        tr
+    }
+}
